@@ -332,6 +332,40 @@ def run(chk, repo):
                    f"'{norm_stmt(h2)}' raises without consulting skip_failed: that class of failure (e.g. a time-out that cannot be cured by the "
                    "complexity-reduction retry) leaves the per-unit isolation and aborts the whole run although --skip-failed was given",
                    key=f"{WRAPPER}::{units[0]}::escape::{norm_stmt(h2)}", fn=w.qual)
+    # what the loop feeding a per-unit try evaluates PER ITEM runs while the `for` fetches its next element, i.e. outside the try:
+    # a generator (function or expression) that computes something for each unit moves that part of the unit out of the isolation
+    for (t, h) in hs:
+        loop = next((a for a in repo.ancestors(t) if isinstance(a, (ast.For, ast.While, ast.FunctionDef))), None)
+        if not isinstance(loop, ast.For) or t not in loop.body:
+            continue
+        lazy = []
+        for sub in ast.walk(loop.iter):
+            if isinstance(sub, ast.GeneratorExp):
+                lazy += [(f"generator expression calling {call_name(c)}()", None) for c in G.find_calls(sub.elt) if call_name(c) not in ('tuple', 'list', 'len', 'str', 'int')]
+            if isinstance(sub, ast.Call):
+                nm = call_name(sub).split('.')[-1]
+                if nm in ('map', 'starmap') and sub.args and not isinstance(sub.args[0], ast.Constant):
+                    lazy.append((f"lazy {nm}({unparse(sub.args[0])}, ...)", None))
+                for fi in repo.functions.values():
+                    if fi.node.name == nm and any(isinstance(y, (ast.Yield, ast.YieldFrom)) for y in walk_no_nested(fi.node)) \
+                            and any(isinstance(c, ast.Call) for c in walk_no_nested(fi.node)):
+                        lazy.append((f"generator {fi.qual}", fi))
+        # the same after the normaliser has inlined a helper generator: per-unit work of the package standing next to the try in the loop body
+        repo_names = {fi.node.name for fi in repo.functions.values()}
+        for st in loop.body:
+            if st is t:
+                continue
+            for c in G.find_calls(st):
+                nm = call_name(c).split('.')[-1]
+                if nm in repo_names and not call_name(c).startswith(('logger.', 'logging.')):
+                    lazy.append((f"`{unparse(c)[:60]}` at line {c.lineno} (beside the try, in the loop body)", None))
+        for _, fi in lazy:
+            if fi is not None:
+                chk.uses(fi)
+        chk.ob('C07.b', f"loop feeding the per-unit try at line {t.lineno}: nothing is computed per unit while the next item is fetched", repo.loc(w, loop), not lazy,
+               f"`for ... in {unparse(loop.iter)[:80]}` draws its items from {', '.join(d for d, _ in lazy)}: what that computes for a unit runs when the loop fetches the item, "
+               "outside the try - a failure there is not caught by the skip_failed handler, aborts the run despite --skip-failed and loses the other units",
+               key=f"{WRAPPER}::lazy-feed::{[call_name(c) for st in t.body for c in G.find_calls(st) if call_name(c) in UNIT_CALLERS]}", fn=w.qual)
     for u in UNIT_CALLERS:
         chk.ob('C07.b', f"unit caller {u} is wrapped by a skip_failed try", w.where, u in unit_slots,
                f"{u} is not called inside a per-unit try with a skip_failed handler", key=f"{WRAPPER}::unwrapped::{u}", fn=w.qual)
